@@ -307,7 +307,7 @@ theorem gen_ops_eq_model (a b : RD) (k d s u : Int) :
     Gen.neg a = .ok (neg a) ∧ Gen.abs a = .ok (RDM.abs a) ∧ Gen.addRd a b = .ok (add a b) ∧
     Gen.subRd a b = .ok (sub a b) ∧ Gen.addTd a d s u = .ok (addTimedelta a d s u) ∧
     Gen.mulInt a k = .ok (mulInt a k) ∧ Gen.bool a = .ok (RDM.bool a) ∧ Gen.eq a b = .ok (RDM.eq a b) ∧
-    Gen.hashKey a = .ok (hashKey a) :=
+    Gen.hashKey a = .ok (hashList a) :=
   ⟨RDG.neg_eq a, RDG.abs_eq a, RDG.addRd_eq a b, RDG.subRd_eq a b, RDG.addTd_rd_eq a d s u, RDG.mulInt_eq a k,
    RDG.bool_eq a, RDG.eq_eq a b, RDG.hashKey_eq a⟩
 
@@ -326,9 +326,10 @@ theorem eq_equivalence_gen (a b c : RD) :
   simp only [RDG.eq_eq, Except.ok.injEq]
   exact ⟨eq_refl a, eq_symm a b, eq_trans a b c⟩
 
+/-- the translated `__hash__` tuple is compared ELEMENT BY ELEMENT in source order (`hashList`) -/
 theorem eq_hash_gen (a b : RD) (h : Gen.eq a b = .ok true) : Gen.hashKey a = Gen.hashKey b := by
   rw [RDG.eq_eq] at h; injection h with h
-  rw [RDG.hashKey_eq, RDG.hashKey_eq, eq_hash a b h]
+  rw [RDG.hashKey_eq, RDG.hashKey_eq, (RDG.hashList_eq_iff a b).2 (eq_hash a b h)]
 
 theorem neg_neg_gen (d : RD) (h : Normalised d) : (Gen.neg d).bind Gen.neg = .ok d := by
   rw [RDG.neg_eq]
@@ -350,6 +351,16 @@ theorem eq_applyTo_gen (a b : RD) (ha : Normalised a) (hb : Normalised b) (h : G
 theorem mulInt_total_gen (d r : RD) (k : Int) (h : Gen.mulInt d k = .ok r) :
     usTotal r = usTotal d * k ∧ monthTotal r = monthTotal d * k := by
   rw [RDG.mulInt_eq] at h; injection h with h; rw [← h]; exact mulInt_total d k
+
+/-- **constructor_gen.** The translated keyword constructor is `mk` (C03.gen_initKw_eq_mk); hence whatever it
+    returns is normalised, and constructing from a value's own fields reproduces the value. -/
+theorem constructor_gen (kw : Kw) (d : RD) :
+    Gen.initKw kw = mk kw ∧ (∀ r, Gen.initKw kw = .ok r → Normalised r) ∧
+    (Normalised d → Gen.initKw (fieldsOf d) = .ok d) := by
+  refine ⟨RDG.initKw_eq kw, ?_, ?_⟩
+  · intro r h; rw [RDG.initKw_eq] at h
+    exact (every_op_normalised d d 0 kw 0 0 0).2.2.2.2.2.2 r h
+  · intro h; rw [RDG.initKw_eq]; exact mk_fields_id d h
 
 -- non-vacuity / sanity
 example : Gen.fix { seconds := -3661, microseconds := 2500000 } =
